@@ -167,6 +167,32 @@ func checkC06(c C06Case) *Failure {
 			}
 		}
 	}
+	if n.Op == "slice" {
+		// one index slice object serves two calls on operands of different extent
+		idx := prog.ToRanges(n.R)
+		if _, err := a.Slice(idx); err != nil {
+			return failf("slice with a reused index failed: %v", err)
+		}
+		big := make([]int, len(sa))
+		for i := range big {
+			big[i] = sa[i] + 1
+		}
+		bv := make([]float64, ref.Prod(big))
+		for i := range bv {
+			bv[i] = float64(i)
+		}
+		bt := lib.MustNew(big, bv, false)
+		y2, err := bt.Slice(idx)
+		if err != nil {
+			return failf("slice %v of a tensor of shape %v (index slice used before on shape %v) failed: %v", n.R, big, sa, err)
+		}
+		want2, err := (*ref.Ctx)(nil).Slice(ref.FromVals(big, bv), n.R)
+		if err == nil {
+			if f := compareTensor("slice with an index slice that served an earlier call", y2, want2, cmpBits, nil); f != nil {
+				return f
+			}
+		}
+	}
 	if n.Op == "slice" || n.Op == "patch" {
 		explicit, omitted := 0, len(sa)-len(n.R)
 		for _, r := range n.R {
